@@ -124,9 +124,29 @@ def spec(claims: dict, options: dict, now, leeway):
     return ("REJECT", bad) if bad else ("ACCEPT", bad)
 
 
+def order_independent(ctx, J_, claims, options, now, leeway):
+    """whatever the verdict is (also where the statement leaves it open): it does not depend on the order of the keys inside an option, nor on the
+    order of the options, nor on the order of the claims"""
+    rev_opts = {k: ({a: b for a, b in reversed(list(v.items()))} if isinstance(v, dict) else v) for k, v in reversed(list(options.items()))}
+    rev_claims = {k: v for k, v in reversed(list(claims.items()))}
+    outs = []
+    for opts, cl in ((options, claims), (rev_opts, claims), (options, rev_claims)):
+        reg = call(J_.jwt.JWTClaimsRegistry, now=now, leeway=leeway, **copy.deepcopy(opts))
+        o = call(reg.value.validate, copy.deepcopy(cl)) if reg.ok else reg
+        outs.append("ok" if o.ok else o.etype)
+    ctx.count("order_checks")
+    if len(set(outs)) > 1:
+        # several rules broken at once: which error is reported first may follow the order; only accept-versus-reject is judged then
+        if ("ok" in outs) and len(set(outs)) > 1:
+            ctx.violation("verdict-depends-on-order", f"validate gives {outs[0]} / {outs[1]} (option keys reversed) / {outs[2]} (claims reversed) for "
+                          f"claims {claims!r}, options {options!r}"[:500], {"claims": claims, "options": options, "now": now, "leeway": leeway})
+
+
 def judge(ctx, J_, claims, options, now, leeway, tag="grid"):
     ctx.ev()
     case = {"claims": claims, "options": options, "now": now, "leeway": leeway}
+    if (len(options) > 1 or any(isinstance(v, dict) and len(v) > 1 for v in options.values())) and ctx.rng.random() < 0.3:
+        order_independent(ctx, J_, claims, options, now, leeway)
     try:
         verdict, classes = spec(claims, options, now, leeway)
     except Open as o:
